@@ -74,6 +74,12 @@ def make_scenarios(rng, tier, focus, count):
         g = RC.random_graph(rng, n, kinds=kinds, p_cached=0.1 if focus != "deps" else 0.2,
                             p_par=0.75 if focus in ("slots", "reap", "deps") else 0.5,
                             dense=rng.choice([0.3, 0.5, 0.8]))
+        if focus == "deps" and k % 6 == 2:
+            # --again over experiments that already HAVE recorded versions: everything needed is executed again, in dependency
+            # order all the same
+            g["again"] = True
+            g["cachedTs"] = [5 if (g["kind"][i] == "exp" and rng.random() < 0.7) else 0 for i in range(n)]
+            g["lastTs0"] = 5 if any(g["cachedTs"]) else 0
         if focus == "deps" and n >= 3 and rng.random() < 0.5:
             # force the diamond / shared-sub-dependency shapes with both listing orders
             a, b, d = n, n - 1, 1
@@ -233,6 +239,21 @@ def make_scenarios(rng, tier, focus, count):
                 sched["fail_launch"] = [RC.ident_of(pkgs, w + 2)]
         scn = RC.scenario_from_graph(g, placement=k, jobs=jobs, stop=stop, sched=sched)
         scn["_n"] = n
+        if focus == "slots" and k % 10 == 4:
+            # a CHAINED run_experiment_group whose instances are not parallelizable, next to parallel tasks: the files use the
+            # macro, the monitor is configured with its documented expansion (t3, t4 sequential experiments, t4 after t3)
+            g = {"n": 6, "target": 6, "deps": [[], [], [], [3], [3, 4], rng.sample([1, 2, 5], 3)],
+                 "kind": ["cmd", "exp", "exp", "exp", "combine", "group"], "par": [True, True, False, rng.random() < 0.3, False, False],
+                 "cachedTs": [0] * 6, "stale": [False] * 6, "again": False, "atLeast": False, "now": 1000, "lastTs0": 0}
+            scn = RC.scenario_from_graph(g, placement=0, jobs=rng.choice([2, 3]), stop=False,
+                                         sched={"seed": rng.randrange(1 << 30), "codes": {}, "fail_launch": [], "p_exit": 0.2, "p_deliver": 0.7})
+            scn["_n"] = 6
+            scn["project"]["raw_cond"] = {"": (
+                "run_command(name='t1', run='true', parallelizable=True)\nrun_experiment(name='t2', run='true', parallelizable=True)\n"
+                "run_experiment_group(name='t5', run='true', chain_experiments=True, experiments=[ExperimentInstance(name='t3'), "
+                "ExperimentInstance(name='t4', parallelizable=%r)])\n"
+                "group(name='t6', deps=%r)\n" % (bool(g["par"][3]), [":t%d" % d for d in g["deps"][5]]))}
+            scn["dup_spelling"] = True      # (not offered to Executor_Trace: the lowering of the macro is not what _g describes)
         if focus == "slots" and k % 4 == 2:
             # nested use: cond's own environment already carries an outer task's COND_* variables (the slot value may coincide
             # with one this run hands out)
